@@ -291,6 +291,17 @@ def invalid_cells():
         add(det, {"threshold_scale": None, "level": 1.5}, "level outside (0, 1)")
         add(det, {"threshold_scale": None, "min_segment_length": 0, "max_interval_length": 10}, "min_segment_length below 1")
     add("MovingWindow", {"threshold_scale": None, "bandwidth": 0}, "bandwidth below 1")
+    # NaN is not a number in any documented domain ("non-negative float", "int >= 1", "(1, 2]" ...): it must be rejected like any
+    # other value outside the domain (D31: `value < minimum` is False for NaN)
+    nan = {"float": "nan"}
+    for det, keys in (("PELT", ("penalty_scale", "min_segment_length")),
+                      ("MovingWindow", ("threshold_scale", "bandwidth", "level", "min_detection_interval")),
+                      ("SeededBinarySegmentation", ("threshold_scale", "level", "min_segment_length", "max_interval_length", "growth_factor")),
+                      ("CircularBinarySegmentation", ("threshold_scale", "level", "min_segment_length", "max_interval_length", "growth_factor")),
+                      ("CAPA", ("collective_penalty_scale", "point_penalty_scale", "min_segment_length", "max_segment_length")),
+                      ("MVCAPA", ("collective_penalty_scale", "point_penalty_scale", "min_segment_length", "max_segment_length"))):
+        for key in keys:
+            add(det, {key: nan}, f"NaN as {key}")
     out = []
     for c in inv:
         for route in ("constructor", "set_params"):
